@@ -13,6 +13,10 @@ CLAIMED = {
             "structural conditions of 'consistent sentence after every update, independent of history' on all paths; "
             "numeric index bounds are not decided.", "DESIGN.md §4 C05"),
 }
+CLAIMED["C02"] = ("finite-domain abstract interpretation of the iterator loop (transition table) + linear forms at the loop-header fixpoint",
+    "Complete decision of the per-boundary transition table of the token iterator over (label x skip flag), of the "
+    "position forms base+i+1 in the loop-invariant header state, and of the structural facts that the writer goes through "
+    "the iterator and that surface/tags slices use (start,end). Value-level concatenation is not decided.", "DESIGN.md §4 C02")
 NOT_YET = {}
 
 def main():
